@@ -284,6 +284,14 @@ def filePos (s : State) : Nat :=
   (nodeAt s (cursor s)).length - srcLen s.src +
     (if s.overNode = cursor s ∧ s.src = [] then s.over else 0)
 
+/-- Where `lseek(offset, whence)` would put the client in its current node. -/
+def seekTarget (s : State) (w : Whence) (offset : Int) : Int :=
+  match w with
+  | .set => offset
+  | .cur => (filePos s : Int) + offset
+  | .end_ => ((nodeAt s (cursor s)).length : Int) + offset
+  | .other => -1
+
 /-- `client_seek_proxy(filter, offset, whence)` with a file-like seek callback (`lseek`):
 a negative resulting offset is refused (ARCHIVE_FATAL), an offset beyond the end is
 accepted.  Script entry of this invocation: `0` (or none left) = behave; `a < 0` = fail
@@ -296,16 +304,11 @@ def clientSeek (s : State) (w : Whence) (offset : Int) : Int × State :=
     let s1 := { s with seeks := s.seeks.tail }
     if ans < 0 then (ans, s1)
     else
-      let c := cursor s
-      let np : Int := match w with
-        | .set => offset
-        | .cur => (filePos s : Int) + offset
-        | .end_ => ((nodeAt s c).length : Int) + offset
-        | .other => -1
+      let np := seekTarget s w offset
       if np < 0 then (-30, s1)
       else
         let t := if ans > 0 ∧ w = .set then np.toNat - np.toNat % ans.toNat else np.toNat
-        ((t : Int), place s1 (s.epoch + 1) c t)
+        ((t : Int), place s1 (s.epoch + 1) (cursor s) t)
 
 /-- The seeker branch of `client_skip_proxy` ("If the client provided a seeker but not a
 skipper, we can use the seeker to skip forward", only for requests over 64k). -/
